@@ -149,13 +149,16 @@ Definition g_forward_for1_step {T : Type} {HN : Num T} (F : ocp_fns T) (L : lqr_
   (l_storage_10, l_V_12) else (l_storage_8, l_V_9)) in
   let l_storage_15 := (put (g_xk_off F L lsolve d (S i_t)) (pf_eval_f F i_t (seg (g_xk_off F L lsolve d i_t) (g_xk_len F L lsolve d i_t) l_storage_13) (seg (g_uk_off F L lsolve d i_t) (g_uk_len F L lsolve d i_t) l_storage_13)) l_storage_13) in
   (l_storage_15, l_V_14).
+(* the indices in the order the for loop visits them *)
+Definition g_forward_for1_order {T : Type} {HN : Num T} (F : ocp_fns T) (L : lqr_fns T) (lsolve : list (list T) -> list T -> list T) (d : dims) (a_hi : nat) : list nat :=
+  (seq 0 a_hi).
 (* OCPEvaluator::forward — the function; result = (return value, storage) *)
 Definition g_forward {T : Type} {HN : Num T} (F : ocp_fns T) (L : lqr_fns T) (lsolve : list (list T) -> list T -> list T) (d : dims) (storage : list T) (D_lb : list (option T)) (D_ub : list (option T)) (D_N_lb : list (option T)) (D_N_ub : list (option T)) (mu : list T) (y : list T) : (T * list T)%type :=
   let l_V_1 := n0 in
   let l_N_2 := (g_N F L lsolve d) in
   let l_nc_3 := (g_nc F L lsolve d) in
   let l_nc_N_4 := (g_nc_N F L lsolve d) in
-  let '(l_storage_16, l_V_17) := fold_left (fun '(s_storage_in, s_V_in) i_t => g_forward_for1_step F L lsolve d D_lb D_ub mu y l_nc_3 s_storage_in s_V_in i_t) (seq 0 l_N_2) (storage, l_V_1) in
+  let '(l_storage_16, l_V_17) := fold_left (fun '(s_storage_in, s_V_in) i_t => g_forward_for1_step F L lsolve d D_lb D_ub mu y l_nc_3 s_storage_in s_V_in i_t) (g_forward_for1_order F L lsolve d l_N_2) (storage, l_V_1) in
   let '(l_storage_21, l_V_22) := (if (Nat.ltb 0%nat (g_nh_N F L lsolve d)) then let l_storage_18 := (put (g_hk_off F L lsolve d l_N_2) (pf_eval_h_N F (seg (g_xk_off F L lsolve d l_N_2) (g_xk_len F L lsolve d l_N_2) l_storage_16)) l_storage_16) in
   let l_V_19 := (l_V_17 + (pf_eval_l_N F (seg (g_hk_off F L lsolve d l_N_2) (g_hk_len F L lsolve d l_N_2) l_storage_18))) in
   (l_storage_18, l_V_19) else let l_V_20 := (l_V_17 + (pf_eval_l_N F (seg (g_xk_off F L lsolve d l_N_2) (g_xk_len F L lsolve d l_N_2) l_storage_16))) in
@@ -181,6 +184,9 @@ Definition g_backward_for1_step {T : Type} {HN : Num T} (F : ocp_fns T) (L : lqr
   let l_work_lam_26 := (vadd l_work_lam_16 (seg (g_qrk_off F L lsolve d i_t) l_nx_5 l_qrbuf_23)) in
   let l_g_27 := (put (Nat.mul i_t l_nu_4) (vadd (seg (Nat.mul i_t l_nu_4) l_nu_4 l_g_17) (seg (Nat.add (g_qrk_off F L lsolve d i_t) (Nat.sub (g_qrk_len F L lsolve d i_t) l_nu_4)) l_nu_4 l_qrbuf_23)) l_g_17) in
   (l_g_27, l_qrbuf_23, l_work_x_24, l_work_lam_26, l_work_c_25).
+(* the indices in the order the for loop visits them *)
+Definition g_backward_for1_order {T : Type} {HN : Num T} (F : ocp_fns T) (L : lqr_fns T) (lsolve : list (list T) -> list T -> list T) (d : dims) (a_hi : nat) : list nat :=
+  (rev (seq 0 a_hi)).
 (* OCPEvaluator::backward — the function; result = (g, qrbuf, work_x, work_λ, work_c) *)
 Definition g_backward {T : Type} {HN : Num T} (F : ocp_fns T) (L : lqr_fns T) (lsolve : list (list T) -> list T -> list T) (d : dims) (storage : list T) (g : list T) (qr : list T) (D_lb : list (option T)) (D_ub : list (option T)) (D_N_lb : list (option T)) (D_N_ub : list (option T)) (mu : list T) (y : list T) (work_x : list T) (work_lam : list T) (work_c : list T) : (list T * list T * list T * list T * list T)%type :=
   let l_N_1 := (g_N F L lsolve d) in
@@ -195,7 +201,7 @@ Definition g_backward {T : Type} {HN : Num T} (F : ocp_fns T) (L : lqr_fns T) (l
   let l_work_lam_10 := (vadd l_work_lam_6 l_work_x_9) in
   (l_work_x_9, l_work_lam_10, l_work_c_8) else (work_x, l_work_lam_6, work_c)) in
   let l_qrbuf_14 := (put (g_qk_off F L lsolve d (g_N F L lsolve d)) l_work_lam_12 qr) in
-  let '(l_g_28, l_qrbuf_29, l_work_x_30, l_work_lam_31, l_work_c_32) := fold_left (fun '(s_g_in, s_qrbuf_in, s_work_x_in, s_work_lam_in, s_work_c_in) i_t => g_backward_for1_step F L lsolve d storage D_lb D_ub mu y l_nc_2 l_nu_4 l_nx_5 s_g_in s_qrbuf_in s_work_x_in s_work_lam_in s_work_c_in i_t) (rev (seq 0 l_N_1)) (g, l_qrbuf_14, l_work_x_11, l_work_lam_12, l_work_c_13) in
+  let '(l_g_28, l_qrbuf_29, l_work_x_30, l_work_lam_31, l_work_c_32) := fold_left (fun '(s_g_in, s_qrbuf_in, s_work_x_in, s_work_lam_in, s_work_c_in) i_t => g_backward_for1_step F L lsolve d storage D_lb D_ub mu y l_nc_2 l_nu_4 l_nx_5 s_g_in s_qrbuf_in s_work_x_in s_work_lam_in s_work_c_in i_t) (g_backward_for1_order F L lsolve d l_N_1) (g, l_qrbuf_14, l_work_x_11, l_work_lam_12, l_work_c_13) in
   (l_g_28, l_qrbuf_29, l_work_x_30, l_work_lam_31, l_work_c_32).
 
 (* unit factor_masked *)
@@ -237,12 +243,15 @@ Definition g_factor_masked_for1_step {T : Type} {HN : Num T} (F : ocp_fns T) (L 
   let l_P_38 := (lf_Q L i_i l_P_33) in
   (l_P_38, l_s_37) else (s_P_in, s_s_in)) in
   (l_P_39, l_gain_K_30, l_e_31, l_s_40, l_c_18, l_y_20, l_t_23, l_PA_15).
+(* the indices in the order the for loop visits them *)
+Definition g_factor_masked_for1_order {T : Type} {HN : Num T} (F : ocp_fns T) (L : lqr_fns T) (lsolve : list (list T) -> list T -> list T) (d : dims) (a_hi : nat) : list nat :=
+  (rev (seq 0 a_hi)).
 (* StatefulLQRFactor::factor_masked — the function; result = (P, gain_K, e, s, c, y, t, PA) *)
 Definition g_factor_masked {T : Type} {HN : Num T} (F : ocp_fns T) (L : lqr_fns T) (lsolve : list (list T) -> list T -> list T) (d : dims) (N : nat) (nx : nat) (nu : nat) (use_cholesky : bool) (P : list (list T)) (gain_K : list (list (list T))) (e : list (list T)) (s : list T) (c : list T) (y : list T) (t : list T) (PA : list (list T)) : (list (list T) * list (list (list T)) * list (list T) * list T * list T * list T * list T * list (list T))%type :=
   let l_P_1 := (mzero nx nx) in
   let l_P_2 := (lf_Q L N l_P_1) in
   let l_s_3 := (lf_q L N) in
-  let '(l_P_41, l_gain_K_42, l_e_43, l_s_44, l_c_45, l_y_46, l_t_47, l_PA_48) := fold_left (fun '(s_P_in, s_gain_K_in, s_e_in, s_s_in, s_c_in, s_y_in, s_t_in, s_PA_in) i_i => g_factor_masked_for1_step F L lsolve d nx nu use_cholesky s_P_in s_gain_K_in s_e_in s_s_in s_c_in s_y_in s_t_in s_PA_in i_i) (rev (seq 0 N)) (l_P_2, gain_K, e, l_s_3, c, y, t, PA) in
+  let '(l_P_41, l_gain_K_42, l_e_43, l_s_44, l_c_45, l_y_46, l_t_47, l_PA_48) := fold_left (fun '(s_P_in, s_gain_K_in, s_e_in, s_s_in, s_c_in, s_y_in, s_t_in, s_PA_in) i_i => g_factor_masked_for1_step F L lsolve d nx nu use_cholesky s_P_in s_gain_K_in s_e_in s_s_in s_c_in s_y_in s_t_in s_PA_in i_i) (g_factor_masked_for1_order F L lsolve d N) (l_P_2, gain_K, e, l_s_3, c, y, t, PA) in
   (l_P_41, l_gain_K_42, l_e_43, l_s_44, l_c_45, l_y_46, l_t_47, l_PA_48).
 
 (* unit solve_masked *)
@@ -258,10 +267,13 @@ Definition g_solve_masked_for1_step {T : Type} {HN : Num T} (F : ocp_fns T) (L :
   let l_Delx_9 := (put (Nat.mul (Nat.modulo (S i_i) 2%nat) nx) (mv l_Ai_3 (seg (Nat.mul (Nat.modulo i_i 2%nat) nx) nx s_Delx_in)) s_Delx_in) in
   let l_Delx_10 := (put (Nat.mul (Nat.modulo (S i_i) 2%nat) nx) (vadd (seg (Nat.mul (Nat.modulo (S i_i) 2%nat) nx) nx l_Delx_9) (mv l_Bi_4 (seg (Nat.mul i_i nu) nu l_Delu_eq_8))) l_Delx_9) in
   (l_Delu_eq_8, l_Delx_10, l_e_7).
+(* the indices in the order the for loop visits them *)
+Definition g_solve_masked_for1_order {T : Type} {HN : Num T} (F : ocp_fns T) (L : lqr_fns T) (lsolve : list (list T) -> list T -> list T) (d : dims) (a_hi : nat) : list nat :=
+  (seq 0 a_hi).
 (* StatefulLQRFactor::solve_masked — the function; result = (Δu_eq, Δx, e) *)
 Definition g_solve_masked {T : Type} {HN : Num T} (F : ocp_fns T) (L : lqr_fns T) (lsolve : list (list T) -> list T -> list T) (d : dims) (N : nat) (nx : nat) (nu : nat) (Delu_eq : list T) (Delx : list T) (gain_K : list (list (list T))) (e : list (list T)) : (list T * list T * list (list T))%type :=
   let l_Delx_1 := (put 0%nat (vconst nx n0) Delx) in
-  let '(l_Delu_eq_11, l_Delx_12, l_e_13) := fold_left (fun '(s_Delu_eq_in, s_Delx_in, s_e_in) i_i => g_solve_masked_for1_step F L lsolve d nx nu gain_K s_Delu_eq_in s_Delx_in s_e_in i_i) (seq 0 N) (Delu_eq, l_Delx_1, e) in
+  let '(l_Delu_eq_11, l_Delx_12, l_e_13) := fold_left (fun '(s_Delu_eq_in, s_Delx_in, s_e_in) i_i => g_solve_masked_for1_step F L lsolve d nx nu gain_K s_Delu_eq_in s_Delx_in s_e_in i_i) (g_solve_masked_for1_order F L lsolve d N) (Delu_eq, l_Delx_1, e) in
   (l_Delu_eq_11, l_Delx_12, l_e_13).
 
 (* end of OcpGen *)
